@@ -734,6 +734,7 @@ func init() {
 		Rule: "Stacking scenes: 2-9 boxes nested up to 3 deep, each a block, float or inline-block with its own background, border, text and (one in four) outline colour and a text; four in ten relative or absolute positioned with z-index in {auto, 0, 1, 1, 2, -1, -1, -2}, one in four with opacity, transform or overflow:hidden; negative margins and offsets make boxes overlap. One scene in eight is a wide context of 10-28 positioned siblings sharing few z-index values. " +
 			"Oracle: a reference of CSS 2.1 Appendix E (stacking context tree; per context: background and border of the root box, negative z-index contexts ascending with ties in tree order, in-flow block backgrounds and borders in tree order, floats atomically, inline content (texts and inline-blocks) in tree order, positioned boxes with z-index auto/0 and z-index-0 contexts in tree order with the hoisting of positioned descendants out of pseudo contexts, positive contexts ascending with ties in tree order) gives the expected sequence of (box, layer) paints; the observed sequence is decoded from the fill colours of Paint and DrawText calls of the backend trace in chronological order (groups are drawn where they are composited); both must be equal. Then: every paint of the sub-tree of an opacity box lies on that box's group canvas, nothing foreign does, and the group is composited with that opacity; borders and texts below an overflow:hidden box are drawn with more clip regions active than the box's own border. " +
 			"One scene in twelve spans several pages: fixed-position boxes, relatively positioned blocks and forced breaks in a drawn order; every page paints all fixed boxes and its own blocks in tree order. " +
+			"One box in eleven is a table (leaf, positioned or not). " +
 			"Non-trivial: >= 2 boxes with explicit z-index, or a float.",
 		ImportantLabels: []string{"kind:pages", "z-ties", "negative-z", "nested-context", "opacity", "transform", "overflow-hidden", "float", "wide-context"},
 		Assumptions:     []string{"whether overflow:hidden clips the outlines of descendants is not judged (the engine draws the outlines of a context after its clipped content)", "the trace order of group contents is taken as their paint order (a group is composited right after its content is recorded)"},
